@@ -16,7 +16,7 @@
    newBlockManager over the same stores) anywhere. *)
 From stdpp Require Import list.
 From Coq Require Import ZArith.
-From Verif Require Import S2.Model C01.Spec S2.Basics S2.Invariant C01.Proofs.
+From Verif Require Import S2.Model C01.Spec S2.Basics S2.Invariant S2.Faults C01.Proofs.
 Open Scope Z_scope.
 
 (* after any history the reported chain is a valid chain: there are acceptance
@@ -62,6 +62,79 @@ Theorem C01_never_traps : forall P gfh pre post,
   trap (run P (init_state P gfh) pre) = false.
 Proof. exact never_traps. Qed.
 Print Assumptions C01_never_traps.
+
+(* ---------- with failing writes to the block header store ----------
+   [wf_hist_f] is [wf_hist] with the operation OHeadersF p now hs k allowed as
+   well: a headers message during whose handling the k-th call of
+   BlockHeaders.WriteHeaders fails and writes nothing (any k; the handler
+   makes at most two calls: the first header of a branch it switches to, and
+   the validated batch).  Every state reached by such a history still has a
+   fully valid stored chain that matches the checkpoints, consistent lookups,
+   no ill-formed store operation — and the in-memory state the handler relies
+   on between messages agrees with the stores: the header window is the tail
+   of the stored chain, the next checkpoint is the first one above the stored
+   tip (in particular it is NOT advanced when the write of the batch that
+   reached it failed), the in-memory filter tip is the filter store's.
+   (F70, fixed: a failed write of a branch's first header used to be ignored;
+   the rest of the branch was then written one height too high.) *)
+Theorem C01_chain_valid_under_write_faults : forall P gfh pre post,
+  wf_params P -> no_collision P (pre ++ post) -> wf_hist_f P (pre ++ post) ->
+  let s := run P (init_state P gfh) pre in
+  trap s = false /\
+  exists times, length times = length (chain s) /\
+    Forall (fun t => t ∈ hist_nows pre) (tail times) /\
+    valid_chain P (zip (chain s) times) = true.
+Proof. exact chain_valid_every_instant_f. Qed.
+Print Assumptions C01_chain_valid_under_write_faults.
+
+Theorem C01_lookups_agree_under_write_faults : forall P gfh ops,
+  wf_params P -> no_collision P ops -> wf_hist_f P ops ->
+  let s := run P (init_state P gfh) ops in
+  (forall x h i, fetch_header (chain s) x = Some (h, i) <-> at_h (chain s) i = Some h /\ hid h = x) /\
+  (exists t, chain_tip s = Some t /\ at_h (chain s) (tip_height s) = Some t /\
+             fetch_header (chain s) (hid t) = Some (t, tip_height s)) /\
+  NoDup (map hid (chain s)).
+Proof. exact lookups_agree_f. Qed.
+Print Assumptions C01_lookups_agree_under_write_faults.
+
+Theorem C01_mirror_under_write_faults : forall P gfh ops,
+  wf_params P -> no_collision P ops -> wf_hist_f P ops ->
+  let s := run P (init_state P gfh) ops in
+  WM (hl s) (chain s) /\ nextCp s = find_next_cp P (tip_height s) /\
+  0 < zlen (fchain s) <= zlen (chain s) /\ ftipVar s = zlen (fchain s) - 1.
+Proof. exact mirror_f. Qed.
+Print Assumptions C01_mirror_under_write_faults.
+
+(* every fault-free history is such a history, and a fault that does not
+   strike (k = 0) is no fault *)
+Theorem C01_write_faults_conservative : forall P ops now p hs s,
+  (wf_hist P ops -> wf_hist_f P ops) /\
+  step P s (OHeadersF p now hs 0) = step P s (OHeaders p now hs).
+Proof. exact write_faults_conservative. Qed.
+Print Assumptions C01_write_faults_conservative.
+
+Example C01_write_faults_nonvacuous :
+  let P := ex_P [(4, 204)] in
+  wf_params P /\ no_collision P exf_ops /\ wf_hist_f P exf_ops /\
+  map (fun k => let s := run P (init_state P 7) (take k exf_ops) in
+                (map hid (chain s), map nheight (hl s), nextCp s, events s))
+      [2; 3; 4; 5; 6; 7; 8]%nat =
+    [ ([100], [0], Some (4, 204), []);                                  (* batch write failed: nothing stored *)
+      ([100; 101; 102], [0; 1; 2], Some (4, 204), []);
+      ([100; 101], [1], Some (4, 204), [EDisc 102 2 101]);             (* rolled back, branch header not written *)
+      ([100; 101; 202; 203], [1; 2; 3], Some (4, 204), [EDisc 102 2 101]);
+      ([100; 101; 202; 203], [3], Some (4, 204), [EDisc 102 2 101]);   (* checkpoint batch lost: nextCp stays *)
+      ([100], [0], Some (4, 204),                                       (* another header at height 4: refused *)
+       [EDisc 102 2 101; EDisc 203 3 202; EDisc 202 2 101; EDisc 101 1 100]);
+      ([100; 101; 202; 203; 204], [0; 1; 2; 3; 4], None,
+       [EDisc 102 2 101; EDisc 203 3 202; EDisc 202 2 101; EDisc 101 1 100]) ].
+Proof.
+  split; [|split; [|split]].
+  - split; cbn; lia.
+  - apply no_collision_b_sound. vm_compute. reflexivity.
+  - split; [repeat constructor; vm_compute; reflexivity|vm_compute; discriminate].
+  - vm_compute. reflexivity.
+Qed.
 
 (* the hypotheses are satisfiable by a history with a valid batch, a batch
    valid only up to some index, a duplicate, a restart, a heavier fork and a
